@@ -132,3 +132,21 @@ harness! {
 }
 
 // (count() itself cannot be executed by Kani: bytecount's runtime-dispatched SIMD intrinsics are unsupported)
+
+// clone(): independent copy (bounded: b = 4, arbitrary registers)
+harness! {
+    #[kani::unwind(20)]
+    fn c19_hll_clone_independent() {
+        let hv: u64 = any();
+        let mut a = HyperLogLog::<u64, ConstBH>::with_hash(4, ConstBH(hv));
+        let mut i = 0;
+        while i < 16 { let v: u8 = any(); assume(v <= 61); a.registers[i] = v; i += 1; }
+        let before = a.registers.clone();
+        let mut b = a.clone();
+        assert!(b.registers == before, "C19 a clone has the registers of the original");
+        let which: bool = any();
+        let h2: u64 = any();
+        if which { a.add_hashed(h2); } else { b.add_hashed(h2); }
+        assert!((if which { &b } else { &a }).registers == before, "C19 clone and original do not share state");
+    }
+}
